@@ -5,21 +5,37 @@ from vlib.gentie import gentie_step_all   # the causality theorems quantify over
 
 CHECK = Check(
     "C14",
-    props_modules=["OW.Props.C14", "OW.Props.C14Prefix"],
+    props_modules=["OW.Props.C14", "OW.Props.C14Prefix", "OW.Props.C14Wrapper"],
     families=[Family("KHIST", rtol=1e-9, atol_scale=1e-12, tol_by_model=TOL_BY_MODEL, args=["models=" + ",".join(ALL_MODELS), "n=24"] + EXTRA_ARGS)],
     # regenerated structural fact: no function reachable from a kernel assigns a package-level variable or calls a method of one
     # (cache objects, sync.Map, pools) — "no information survives in package-level variables" decided on the source, not only on sampled histories
     pre_steps=[purity_step(PURITY_RULES, "C14"), gentie_step_all],
     level="proof",
     trusted=[
-        "the Lean kernel models are total functions of (parameters, states, inputs): purity is by construction there, so the property "
-        "is decided against the CODE by the KHIST correspondence: histories of real runs in one process (same object again, fresh "
+        "PURITY IS NOT PROVED: the Lean kernel models are total functions of (parameters, states, inputs), so purity is by construction "
+        "there and the Lean theorem run_deterministic is congruence of equality (subst; rfl) — trivial, no content about the code. The "
+        "purity half of the property is DECIDED against the CODE by (a) the structural purity rule regenerated from the Go source "
+        "(pre-step purity_step: no function reachable from a kernel assigns a package-level variable or calls a method of one) and "
+        "(b) the KHIST correspondence: histories of real runs in one process (same object again, fresh "
         "object, other models and other parameters in between, inputs truncated at t, later inputs changed) where EVERY run is "
         "compared with the history-free model — any hidden carry-over or look-ahead makes some run disagree",
         "oracle on the implementation: runs with identical calls are bit-identical; runs whose inputs agree up to t agree on outputs up to t",
     ],
-    assumptions=["all input series of a call have the same length"],
+    assumptions=["all input series of a call have the same length",
+                 "wrapper-level theorems (OW/Props/C14Wrapper.lean): the truncated call has the same parameter array, state argument and number "
+                 "of cells, its input array is the first n1 timesteps of every series of every block (same number of blocks and series), and "
+                 "the two output arrays agree on the first n1 timesteps BEFORE the calls (structure Truncates: e.g. the same array, the array "
+                 "cut to n1 timesteps, or two zero-filled arrays); wrapper_causal additionally assumes that both wrapper runs succeed, "
+                 "wrapper_causalStrong only the whole-period one"],
     partial=[
+        "run_deterministic (purity) is a congruence lemma, not a proof of purity of the code: purity is decided by KHIST + the structural "
+        "purity rule (see trusted)",
+        "wrapper level: wrapper_causal / wrapper_causalStrong / wrapper_causal_change (+ _catalogue instances for all 41 models) lift "
+        "per-call causality through C04.runCells_spec to the N-cell run of the LIST-LEVEL wrapper semantics OW.Sim.run (every output row "
+        "of every cell agrees on the first n1 timesteps; strong form: the truncated wrapper run succeeds when the whole-period run does, "
+        "n1 >= 1 because of InstreamDissolvedNutrientDecay, all n1 for the other 40). NOT done: composing this with the strided-view "
+        "refinement C04Nd.runNd_refines (the result is about lists of rows, not about the Nd arrays' storage), and final STATES of the "
+        "truncated run are not related to anything (that is hot-start continuity, C06)",
         "causal_<M> : Causal M.model (both the whole-period run and the truncated run succeed ⇒ equal outputs on the prefix) and the STRONG "
         "form causalStrong_<M> (OW/Props/C14Prefix.lean: the whole-period run succeeds ⇒ the truncated run succeeds too and agrees on the "
         "prefix; a Go panic of the truncated run is a panic of the whole run) are proved for ALL 41 catalogue models over any arithmetic "
@@ -38,11 +54,17 @@ META = dict(
     text="Lean 4 theorems: `causal_<M> : Causal M.model` for all 41 catalogue models, proved directly over any arithmetic (outputs up to t "
          "are unchanged when the inputs after t are truncated or changed — also for the models where hot-start continuity fails), for "
          "all parameters/series/truncation points; and `causalStrong_<M>` for all 41: a successful whole-period run implies that every "
-         "truncated run succeeds (no panic) and agrees on the prefix (InstreamDissolvedNutrientDecay: truncation points ≥ 1); purity holds by construction in the model (total functions of parameters, states, inputs) "
-         "and is tied to the code by history correspondence: every Run of a history of real runs equals the history-free model's result.",
+         "truncated run succeeds (no panic) and agrees on the prefix (InstreamDissolvedNutrientDecay: truncation points ≥ 1); lifted to the "
+         "N-cell wrapper run through C04.runCells_spec (`wrapper_causal`, `wrapper_causalStrong`, `wrapper_causal_change`, "
+         "`wrapper_causal_catalogue`: every output row of every cell agrees on the first n1 timesteps, any layout / number of cells / "
+         "cyclic reuse of parameter sets and input blocks / hot start). PURITY IS NOT PROVED: in the model it holds by construction "
+         "(total functions of parameters, states, inputs; `run_deterministic` is congruence, trivial) and it is DECIDED against the code by "
+         "the KHIST history correspondence (every Run of a history of real runs equals the history-free model's result; identical calls "
+         "bit-identical) together with the structural purity rule regenerated from the Go source (no function reachable from a kernel "
+         "writes a package-level variable or calls a method of one).",
     design_ref="DESIGN.md §6 C14",
     note="Trusted: Lean kernel + 3 standard axioms; history generator (<= 12 runs over <= 4 objects per history); package-level state "
          "in the Go runtime or in cgo is outside the model.",
-    technique="Lean 4 proof (causality from scan structure) + history differential correspondence against a history-free model + regenerated structural facts as proof obligations with a race-detector probe for a witness",
+    technique="Lean 4 proof (causality from scan structure, lifted to the N-cell wrapper run through C04.runCells_spec) + history differential correspondence against a history-free model + regenerated structural facts as proof obligations with a race-detector probe for a witness",
 )
 READY = True
